@@ -26,6 +26,10 @@ class ScriptExhausted(Exception):
     pass
 
 
+class OptionNotOffered(Exception):
+    """a replayed script asks for an option the code does not offer at this decision"""
+
+
 class BaseRNG(np.random.Generator):
     max_events = 4000
 
@@ -58,6 +62,9 @@ class BaseRNG(np.random.Generator):
         ev = {"kind": "choice", "a": arr, "p": [to_frac(x) for x in pv], "k": -1}
         self.events.append(ev)
         k = self._pick(ev, pv)
+        if not (0 <= int(k) < len(arr)):
+            ev["k"] = int(k)
+            raise OptionNotOffered(f"option {int(k)} of {len(arr)}")
         ev["k"] = int(k)
         return arr[k]
 
